@@ -474,6 +474,9 @@ func (fr *Frame) lookupName(name string, e *Env) (TV, bool) {
 				if !ok || id.Name != name {
 					continue
 				}
+				if v, isVar := x.Object().(*types.Var); !isVar || v.IsField() {
+					continue
+				}
 				vb := b
 				if vi, ok := x.X.(ssa.Instruction); ok && vi.Block() != nil {
 					vb = vi.Block()
